@@ -82,7 +82,6 @@ func sameRec(a, b map[string][]uint32) bool {
 	return true
 }
 
-
 // selftestRace: the -race build must report the one unsynchronised probe and
 // none of the synchronised ones (mutex, rwmutex, channel, waitgroup, once,
 // pool, timer), under several schedules each.
